@@ -47,5 +47,27 @@ let cmd_claim t =
   | PgErr -> Printf.printf "err res=err\n"
   | PgPanic -> Printf.printf "panic\n"
 
+(* hist <blob> <nops> (x | c <count hex> | f <bit index> | h <hash index> <byte index> <mask>)* *)
+let cmd_hist t =
+  let blob = next_hex t in
+  let ops = next_list t (fun t ->
+    match next t with
+    | "x" -> HExtract
+    | "c" -> HCount (n_of_hex (next t))
+    | "f" -> HFlip (nat_of_int (next_int t))
+    | "h" -> let i = next_int t in let j = next_int t in let m = next_int t in
+             HHash (nat_of_int i, nat_of_int j, n_of_int m)
+    | o -> failwith ("op " ^ o)) in
+  match mkl_hist blob ops with
+  | None -> Printf.printf "err res=parse-err\n"
+  | Some None -> Printf.printf "panic\n"
+  | Some (Some l) ->
+    let show = function
+      | None -> "err"
+      | Some (root, ms) -> Printf.sprintf "ok:%s:%s" (hex_of_bytes root) (hexlist ms) in
+    Printf.printf "calls=%d %s\n" (Stdlib.List.length l)
+      (Stdlib.String.concat " " (Stdlib.List.mapi (fun i r -> Printf.sprintf "x%d=%s" i (show r)) l))
+
 let () =
+  register "mhist" cmd_hist;
   register "mk" cmd_mk; register "mkc" cmd_mk; register "proof" cmd_proof; register "claim" cmd_claim
